@@ -691,6 +691,16 @@ func (a *anchors) cons1(rec *recorder, fn *ssa.Function, name string, tm *termer
 				nBuckets = int(at.Len())
 			}
 		}
+		// a bucket table that is an array ([8][]T): the count is the array length of its type
+		var tableArr *ssa.Alloc
+		if nBuckets < 0 {
+			if pt, isP := bucketSlice.Type().Underlying().(*types.Pointer); isP {
+				if at, isArr := pt.Elem().Underlying().(*types.Array); isArr {
+					nBuckets = int(at.Len())
+					tableArr, _ = bucketSlice.(*ssa.Alloc)
+				}
+			}
+		}
 		if nBuckets < 0 {
 			if ms, isMS := bucketSlice.(*ssa.MakeSlice); isMS {
 				if k, isC := ssau.ConstInt(ms.Len); isC {
@@ -725,9 +735,10 @@ func (a *anchors) cons1(rec *recorder, fn *ssa.Function, name string, tm *termer
 			}
 			// recursion over every bucket
 			seenK := map[int64]int{}
+			tableKey := strip(tm.of(bucketSlice)).String()
 			for _, call := range recCalls {
 				at := strip(tm.of(call.Common().Args[0]))
-				if at.op != "elem" || at.args[0].String() != tm.of(bucketSlice).String() {
+				if at.op != "elem" || strip(at.args[0]).String() != tableKey {
 					rec.undecide("CONS-1", bk, call.Pos(), "a recursive call is not made on one of the buckets: "+at.String())
 					bad = true
 					continue
@@ -738,9 +749,38 @@ func (a *anchors) cons1(rec *recorder, fn *ssa.Function, name string, tm *termer
 					l := ssau.InnermostLoop(loops, call.Block())
 					if l != nil {
 						il := recogniseIndexLoop(l)
-						if il.why == "" && tm.of(il.slice).String() == tm.of(bucketSlice).String() && at.args[1].val == il.index && len(earlyExits(l)) == 0 && !skippable(l, call.Block(), nil) {
+						if il.why == "" && strip(tm.of(il.slice)).String() == tableKey && at.args[1].val == il.index && len(earlyExits(l)) == 0 && !skippable(l, call.Block(), nil) {
 							for j := 0; j < nBuckets; j++ {
 								seenK[int64(j)]++
+							}
+							continue
+						}
+						// an array table walked by a loop with a constant bound (range over [K]T, i < K)
+						if idx, bound, why := recogniseConstLoop(l); why == "" && at.args[1].val == idx {
+							if ex := earlyExits(l); len(ex) > 0 {
+								rec.violate("CONS-1", bk, call.Pos(), fmt.Sprintf("the loop over the buckets can be left early (block %d): the remaining buckets are never built into children", ex[0].Index))
+								bad = true
+								continue
+							}
+							if skippable(l, call.Block(), nil) {
+								rec.violate("CONS-1", bk, call.Pos(), "an iteration of the loop over the buckets can skip building the bucket into a child")
+								bad = true
+								continue
+							}
+							// a by-value copy of the array table must be taken after the distribution loop
+							if tableArr != nil {
+								if ix, isIx := call.Common().Args[0].(*ssa.Index); isIx {
+									if ld, isLd := ix.X.(*ssa.UnOp); isLd && ld.X == ssa.Value(tableArr) {
+										if dl.Blocks[ld.Block()] || !dl.Header.Dominates(ld.Block()) {
+											rec.violate("CONS-1", bk, call.Pos(), "the bucket table is copied before the elements were distributed into it: the children are built from empty buckets")
+											bad = true
+											continue
+										}
+									}
+								}
+							}
+							for j := int64(0); j < bound; j++ {
+								seenK[j]++
 							}
 							continue
 						}
